@@ -118,6 +118,17 @@ func loadContracts(pkgDirs map[string]string) *ContractSet {
 			cs.parseFile(pkgPath, fn, string(b))
 		}
 	}
+	// a defines clause about a ghost field only makes sense when the call also havocs that field: without an explicit assigns
+	// clause naming it the clause would equate the old and the new ghost value
+	for k, c := range cs.ByFunc {
+		for _, d := range c.Defines {
+			if i := strings.Index(d.Text, "ghost("); i >= 0 && strings.Contains(d.Text, "old(ghost(") {
+				if c.Assigns == nil || !strings.Contains(c.Assigns.Text, "ghost(") {
+					cs.errf(d.File, d.Line, "defines clause of %s updates a ghost field but the contract has no assigns clause naming it", k)
+				}
+			}
+		}
+	}
 	return cs
 }
 
